@@ -53,6 +53,8 @@ def check_C17(tier, seed):
     out.judge(core.for_property(bad, "C17"), "stockobject", sig_so)
     from .checks_stock_traces import run_stock_traces
     run_stock_traces(out, "C17", tier)
+    from .checks_lifecycle import run_lifecycle_traces
+    run_lifecycle_traces(out, "C17", tier)
     out.exhaustive = True
     out.assumptions += [
         "two drivers (thorough: also three at depth 4; depth 5 with three drivers and three parameter sets is model-checked only), one of them all zero, and two parameter sets per lifetime model (scalar and per-label); dims time x 2 regions / time only / time x 1 region; all six lifetime models (fixed, step, normal, folded "
